@@ -44,6 +44,31 @@ func ruleR20f(c *Ctx, rule string) {
 		}
 		return true
 	}
+	// a parameter that every caller binds to a constant or to a parameter that is itself so bound (a column name
+	// handed down through helpers)
+	var columnBound func(p *ssa.Parameter, depth int) bool
+	columnBound = func(p *ssa.Parameter, depth int) bool {
+		sites := c.CallersOf(p.Parent())
+		idx := paramIndex(p)
+		if len(sites) == 0 || idx < 0 || depth > 3 {
+			return false
+		}
+		for _, s := range sites {
+			if idx >= len(s.Common().Args) {
+				return false
+			}
+			switch a := strip(s.Common().Args[idx]).(type) {
+			case *ssa.Const:
+			case *ssa.Parameter:
+				if !constBound(a) && !columnBound(a, depth+1) {
+					return false
+				}
+			default:
+				return false
+			}
+		}
+		return true
+	}
 	for _, fn := range fns {
 		hasClientParam := false
 		for _, p := range fn.Params {
@@ -55,13 +80,32 @@ func ruleR20f(c *Ctx, rule string) {
 			continue // filter literals validate their key and value themselves (R20a)
 		}
 		// the fragment builders the filter literals hand the client's value to
-		fromFilter := false
-		for _, cs := range c.CallersOf(fn) {
-			if cs.Parent() != nil && cs.Parent().Parent() != nil {
-				fromFilter = true
+		var reachedFromLiteral func(f *ssa.Function, depth int) bool
+		reachedFromLiteral = func(f *ssa.Function, depth int) bool {
+			if depth > 3 {
+				return false
 			}
+			for _, cs := range c.CallersOf(f) {
+				p := cs.Parent()
+				if p == nil || fnPkgPath(origin(p)) != pkgLedgerstore {
+					continue
+				}
+				if p.Parent() != nil {
+					// a filter literal: (string, []any, error)
+					if rs := p.Signature.Results(); rs.Len() == 3 && isErrorType(rs.At(2).Type()) {
+						if b, ok := rs.At(0).Type().Underlying().(*types.Basic); ok && b.Kind() == types.String {
+							return true
+						}
+					}
+					continue
+				}
+				if reachedFromLiteral(p, depth+1) {
+					return true
+				}
+			}
+			return false
 		}
-		if !fromFilter {
+		if !reachedFromLiteral(fn, 0) {
 			continue
 		}
 		var client func(v ssa.Value, depth int) bool
@@ -72,7 +116,7 @@ func ruleR20f(c *Ctx, rule string) {
 			switch x := v.(type) {
 			case *ssa.Parameter:
 				b, ok := x.Type().Underlying().(*types.Basic)
-				return ok && b.Kind() == types.String && x.Parent() == fn && !constBound(x)
+				return ok && b.Kind() == types.String && x.Parent() == fn && !constBound(x) && !columnBound(x, 0)
 			case *ssa.Convert:
 				return client(x.X, depth+1)
 			case *ssa.ChangeType:
@@ -155,9 +199,20 @@ func ruleR20f(c *Ctx, rule string) {
 			if len(verbs) != len(args) {
 				return
 			}
+			// a fragment that is itself handed to a quoting helper (`quoteLiteral(fmt.Sprintf(…))`) is text of a literal
+			quotedLater := len(*call.Referrers()) > 0
+			for _, r := range *call.Referrers() {
+				uc, ok := r.(*ssa.Call)
+				if !ok || !isQuoter(staticCallee(uc)) {
+					quotedLater = false
+				}
+			}
 			for i, a := range args {
 				if !client(a, 0) {
 					continue
+				}
+				if quotedLater {
+					verbs[i].quoted = true
 				}
 				n++
 				k++
@@ -174,4 +229,31 @@ func ruleR20f(c *Ctx, rule string) {
 	if n < 1 {
 		c.undecided(rule, "floor:client-text-in-formats", token.NoPos, fmt.Sprintf("expected at least 1 Sprintf arguments carrying client text in ledgerstore (the address filters), found %d", n))
 	}
+}
+
+// isQuoter: a helper that returns its only string parameter between single quotes (`"'" + v + "'"` or Sprintf("'%s'", v)).
+func isQuoter(g *ssa.Function) bool {
+	if g == nil || len(g.Blocks) != 1 || len(g.Params) != 1 {
+		return false
+	}
+	ret, ok := g.Blocks[0].Instrs[len(g.Blocks[0].Instrs)-1].(*ssa.Return)
+	if !ok || len(ret.Results) != 1 {
+		return false
+	}
+	// "'" + p + "'"
+	if outer, ok := ret.Results[0].(*ssa.BinOp); ok && outer.Op == token.ADD {
+		if q, ok := constString(outer.Y); ok && q == "'" {
+			if inner, ok := outer.X.(*ssa.BinOp); ok && inner.Op == token.ADD {
+				if q2, ok := constString(inner.X); ok && q2 == "'" && inner.Y == ssa.Value(g.Params[0]) {
+					return true
+				}
+			}
+		}
+	}
+	if call, ok := ret.Results[0].(*ssa.Call); ok && calleeFullName(call) == "fmt.Sprintf" {
+		if f, ok := constString(call.Call.Args[0]); ok && f == "'%s'" {
+			return true
+		}
+	}
+	return false
 }
